@@ -8,6 +8,7 @@ import (
 	"grits/zverif/explore"
 	"grits/zverif/gen"
 	"grits/zverif/harness"
+	"grits/zverif/ref"
 	"grits/zverif/vsched"
 )
 
@@ -29,13 +30,24 @@ func maxPerms(c *harness.Ctx) int {
 	return 30
 }
 
+func renamingsFor(c *harness.Ctx, b baseProg) []gen.Renaming {
+	if strings.HasPrefix(b.Name, "gen") {
+		mp := 4
+		if c.Thorough() {
+			mp = 20
+		}
+		return gen.RenamingsOf(b.P, mp, "f")
+	}
+	return gen.Renamings(b.P, maxPerms(c))
+}
+
 func getRenSpace(c *harness.Ctx) *renSpace {
 	if renSpaceCache != nil {
 		return renSpaceCache
 	}
 	rs := &renSpace{bases: basePrograms(c)}
 	for _, b := range rs.bases {
-		n := len(gen.Renamings(b.P, maxPerms(c)))
+		n := len(renamingsFor(c, b))
 		rs.counts = append(rs.counts, n)
 		rs.starts = append(rs.starts, rs.total)
 		rs.total += (n + renChunk - 1) / renChunk
@@ -106,7 +118,7 @@ func setStr(m map[string]bool) string {
 func init() {
 	harness.Register(&harness.Check{
 		ID: "C14", Level: "model_checking",
-		Rule: "for every driver/example/generated program P: every admissible renaming of E-ren (each bound channel name and function parameter renamed to every identifier that occurs elsewhere in the program but not in the same declaration - collision seeking - and to fresh names; top-level process names; type names, function names and labels renamed to fresh names and swapped pairwise; a type named like a mode) and every permutation of the declarations (all n! for n <= 5, else transpositions, rotations, reversal); oracle: verdict(P) = verdict(r(P)), and for accepted terminating P the outcomes of r(P) (printed multiset, completion, panics) under the default schedule (quick) / all schedules with delay <= 1 (thorough) in both polarized modes are among the outcomes of P explored with delay <= 1; states/transitions as in C01",
+		Rule: "for every driver/example/generated program P: every admissible renaming of E-ren (each bound channel name and function parameter renamed to every identifier that occurs elsewhere in the program but not in the same declaration - collision seeking - and to fresh names; top-level process names; type names, function names and labels renamed to fresh names and swapped pairwise; a type named like a mode) and every permutation of the declarations (all n! for n <= 5, else transpositions, rotations, reversal); for generated programs the channel-name renamings are restricted to the generated function and the declaration permutations to a few; renamings under which the reference typechecker's own verdict changes (P or r(P) breaks the no-shadowing convention for binders) are skipped; oracle: verdict(P) = verdict(r(P)), and for accepted terminating P the outcomes of r(P) (printed multiset, completion, panics) under the default schedule (quick) / all schedules with delay <= 1 (thorough) in both polarized modes are among the outcomes of P explored with delay <= 1; states/transitions as in C01",
 		Assumptions: append([]string{"renamings are computed on the reference AST by an independent binder analysis (ref/terms.go, gen/ren.go)"}, mcAssumptions...),
 		Cases:       func(c *harness.Ctx) int { return getRenSpace(c).total },
 		Run: func(c *harness.Ctx, idx int, r *harness.Rec) {
@@ -119,7 +131,7 @@ func init() {
 					break
 				}
 			}
-			all := gen.Renamings(base.P, maxPerms(c))
+			all := renamingsFor(c, base)
 			lo, hi := k*renChunk, (k+1)*renChunk
 			if hi > len(all) {
 				hi = len(all)
@@ -134,6 +146,7 @@ func init() {
 				return
 			}
 			acc0 := g0.TypeErr == ""
+			v0, _ := ref.CheckProgram(base.P.Copy(), true)
 			var out0 map[string]bool
 			closed := len(base.P.Assumed) == 0
 			if acc0 && closed {
@@ -159,6 +172,12 @@ func init() {
 				}
 				if len(g.Panics) > 0 || g.Blocked {
 					viol(r, "typechecker crashes on a renamed program", fmt.Sprintf("%s / %s: %v", base.Name, rn.Desc, g.Panics), rtext, map[string]interface{}{"original": text})
+					continue
+				}
+				if vr, _ := ref.CheckProgram(rn.P.Copy(), true); vr.Kind != v0.Kind {
+					// the declarative system itself is not invariant here: P (or r(P)) breaks the freshness
+					// convention for binders, which both systems share and which renaming can repair
+					r.Note("skipped: reference verdict changes under the renaming (freshness convention)")
 					continue
 				}
 				if (g.TypeErr == "") != acc0 {
